@@ -56,31 +56,75 @@ type splitter struct {
 	t     *rapid.T
 	next  int // INCLUDE node ids
 	nfile int
-	depth int
 	max   int
+	used  map[string]bool // resolved file paths already taken
 }
 
-func (s *splitter) fileName(dir string) string {
+// fileName draws a name relative to dir (the directory of the including
+// file). Names are reused across directories on purpose (the same relative
+// name written in two directories means two different files); the resolved
+// path is unique.
+func (s *splitter) fileName(dir string, sameDir bool) string {
+	for try := 0; try < 20; try++ {
+		var name string
+		k := rapid.IntRange(1, 3).Draw(s.t, "fileNo")
+		shape := rapid.IntRange(0, 4).Draw(s.t, "nameShape")
+		if sameDir && shape < 2 {
+			// the run holds INCLUDE directives whose names are relative to this
+			// directory: the new file has to live in the same directory
+			shape = 2 + shape
+		}
+		switch shape {
+		case 0:
+			name = fmt.Sprintf("sub%d/common.jst", k)
+		case 1:
+			name = fmt.Sprintf("inc/deep/f%d.jst", k)
+		case 2:
+			name = "common.jst"
+		default:
+			name = fmt.Sprintf("f%d.jst", k)
+		}
+		if !s.used[dir+name] && dir+name != "root.jst" {
+			s.used[dir+name] = true
+			return name
+		}
+	}
 	s.nfile++
-	// names are relative to the including file's directory
-	switch rapid.IntRange(0, 3).Draw(s.t, "nameShape") {
-	case 0:
-		return fmt.Sprintf("sub%d/f%d.jst", s.nfile%3, s.nfile)
-	case 1:
-		return fmt.Sprintf("inc/deep/f%d.jst", s.nfile)
-	}
-	return fmt.Sprintf("f%d.jst", s.nfile)
+	name := fmt.Sprintf("u%d.jst", s.nfile)
+	s.used[dir+name] = true
+	return name
 }
 
-// cut moves a drawn run list[a:b] into an INCLUDE node.
-func (s *splitter) cutRun(list []*Dir, a, b int, depth int) []*Dir {
-	s.next++
-	inc := &Dir{ID: s.next, Kw: "INCLUDE", Params: []string{s.fileName("")}, NoFinalNewline: rapid.IntRange(0, 3).Draw(s.t, "nofinalnl") == 0}
-	inc.Included = append(inc.Included, list[a:b]...)
-	// nested includes inside the moved run
-	if depth < s.max {
-		inc.Included = s.splitList(inc.Included, depth+1, true)
+func dirOfPath(p string) string {
+	for i := len(p) - 1; i >= 0; i-- {
+		if p[i] == '/' {
+			return p[:i+1]
+		}
 	}
+	return ""
+}
+
+// cutRun moves list[a:b] into an INCLUDE node; dir is the directory of the file
+// the list is written in.
+func (s *splitter) cutRun(list []*Dir, a, b int, depth int, dir string) []*Dir {
+	s.next++
+	hasInclude := false
+	for _, d := range list[a:b] {
+		if d.Kw == "INCLUDE" || containsInclude(d) {
+			hasInclude = true
+		}
+	}
+	name := s.fileName(dir, hasInclude)
+	inc := &Dir{ID: s.next, Kw: "INCLUDE", Params: []string{name}, NoFinalNewline: rapid.IntRange(0, 3).Draw(s.t, "nofinalnl") == 0}
+	inc.Included = append(inc.Included, list[a:b]...)
+	sub := dirOfPath(dir + name)
+	// the moved directives now live in the new file: first move whole runs of
+	// them deeper, then cut children of what stays in this file (names are
+	// relative to the directory of the file a directive finally lives in)
+	if depth < s.max {
+		inc.Included = s.splitList(inc.Included, depth+1, true, sub)
+	}
+	s.childCuts(inc.Included, depth+1, sub)
 	out := append([]*Dir{}, list[:a]...)
 	out = append(out, inc)
 	return append(out, list[b:]...)
@@ -89,7 +133,7 @@ func (s *splitter) cutRun(list []*Dir, a, b int, depth int) []*Dir {
 // splitList cuts runs out of a list of sibling directives. A run never
 // separates a URL from the hoisted methods that follow it, and JSIGHT stays in
 // the root file.
-func (s *splitter) splitList(list []*Dir, depth int, top bool) []*Dir {
+func (s *splitter) splitList(list []*Dir, depth int, top bool, dir string) []*Dir {
 	if depth > s.max {
 		return list
 	}
@@ -111,7 +155,7 @@ func (s *splitter) splitList(list []*Dir, depth int, top bool) []*Dir {
 		}
 		ai := rapid.IntRange(0, len(bounds)-1).Draw(s.t, "cutFrom")
 		bi := ai + rapid.IntRange(0, min(3, len(bounds)-1-ai)).Draw(s.t, "cutLen") // bi == ai: an empty included file
-		list = s.cutRun(list, bounds[ai], bounds[bi], depth)
+		list = s.cutRun(list, bounds[ai], bounds[bi], depth, dir)
 	}
 	return list
 }
@@ -119,18 +163,20 @@ func (s *splitter) splitList(list []*Dir, depth int, top bool) []*Dir {
 // childCuts walks the tree and cuts runs of children of implicitly nested
 // directives (no explicit context anywhere above: an included file inside
 // parentheses is not in the property's domain).
-func (s *splitter) childCuts(list []*Dir, depth int) {
+func (s *splitter) childCuts(list []*Dir, depth int, dir string) {
+	if depth > s.max {
+		return
+	}
 	for _, d := range list {
 		if d.Kw == "INCLUDE" {
-			s.childCuts(d.Included, depth)
-			continue
+			continue // already cut (its content was handled when it was moved)
 		}
 		if d.Explicit || len(d.Children) == 0 {
 			continue
 		}
-		s.childCuts(d.Children, depth)
+		s.childCuts(d.Children, depth, dir)
 		if rapid.IntRange(0, 3).Draw(s.t, "childCut") == 0 {
-			d.Children = s.splitList(d.Children, depth+1, false)
+			d.Children = s.splitList(d.Children, depth, false, dir)
 		}
 	}
 }
@@ -140,9 +186,9 @@ func (s *splitter) childCuts(list []*Dir, depth int) {
 // directives, are moved into included files (nesting up to maxDepth).
 func SplitIntoFiles(t *rapid.T, doc *Doc, maxDepth int) *Doc {
 	nd := doc.Copy()
-	s := &splitter{t: t, next: nd.MaxID() + 5000, max: maxDepth}
-	s.childCuts(nd.Top, 1)
-	nd.Top = s.splitList(nd.Top, 1, true)
+	s := &splitter{t: t, next: nd.MaxID() + 5000, max: maxDepth, used: map[string]bool{}}
+	nd.Top = s.splitList(nd.Top, 1, true, "")
+	s.childCuts(nd.Top, 1, "")
 	return nd
 }
 
